@@ -25,3 +25,14 @@ Definition angles_px (masked : bool) (l : look) (s : sunpos) : option angles :=
   if masked then None
   else let sd := rad2deg (s_azi_rad s) in
        Some (mkAngles (cmod (l_azi l)) (90 - l_elev l) (cmod sd) (s_zen s) (relaz sd (l_azi l))).
+
+(* ---------- executable mirror over Q (used by the correspondence; proved equal to the real-valued model in P_C15_Q) ---------- *)
+From Coq Require Import QArith Qabs Qround List.
+Definition qmod (x d : Q) : Q := (x - d * inject_Z (Qfloor (x / d)))%Q.
+Definition cmodQ (x : Q) : Q := let r := qmod x 360 in if Qlt_le_dec 180 r then (r - 360)%Q else r.
+Definition relazQ (a b : Q) : Q := let r := qmod (Qabs (a - b)) 360 in if Qlt_le_dec 180 r then (360 - r)%Q else r.
+
+(* case: folding inputs with the implementation's outputs; pairs with the implementation's relative azimuth *)
+Definition check_fold (c : list (Q * Q) * list (Q * Q * Q)) : bool :=
+  forallb (fun p => Qeq_bool (cmodQ (fst p)) (snd p)) (fst c) &&
+  forallb (fun t => Qeq_bool (relazQ (fst (fst t)) (snd (fst t))) (snd t)) (snd c).
